@@ -357,6 +357,20 @@ func init() {
 			panic(&pathEnd{kind: "exit", msg: "os.Exit"})
 		},
 		"time.Sleep": nop,
+		"time.now": func(r *Run, fn *ssa.Function, a []Value) Value {
+			// arbitrary wall-clock second in [2020-09, 2096), monotonic reading derived from it
+			sec := r.freshScalar("time.now.sec", 64, true)
+			lo, hi := r.ts.Const(64, 1600000000), r.ts.Const(64, 4000000000)
+			r.addPC(r.ts.BAnd(r.ts.Ule(lo, sec), r.ts.Ult(sec, hi)))
+			for _, prev := range r.clock {
+				r.addPC(r.ts.Ule(prev, sec)) // non-decreasing
+			}
+			r.clock = append(r.clock, sec)
+			r.h.noteStub("time.now: arbitrary non-decreasing instant (whole seconds) in [1.6e9, 4e9)")
+			mono := r.ts.Mul(r.ts.Sub(sec, lo), r.ts.Const(64, 1000000000))
+			return TupleV{sec, r.ts.Const(32, 0), mono}
+		},
+		"time.runtimeNano": func(r *Run, fn *ssa.Function, a []Value) Value { return r.ts.Const(64, 1) },
 
 		// ------------------------------------------------------------------ fmt / log (formatting is never the subject)
 		"fmt.Println":  fmtNop,
